@@ -81,6 +81,7 @@ fn main() {
         libc::signal(libc::SIGSEGV, on_segv as *const () as usize);
         libc::signal(libc::SIGBUS, on_segv as *const () as usize);
     }
+    common::spawn_watchdog();
     let args: Vec<String> = std::env::args().collect();
     let mode = args.get(1).map(|s| s.as_str()).unwrap_or("");
     // silence the default panic output: panics are captured and reported as answers
